@@ -5,7 +5,8 @@ G:  HostRefine_Gen — behaviours (setup prefix + every <=2-call suffix of the M
     partitions (page edges, 2^32 wrap / alias, 64-bit values), invoke program x counter x gas grids.
 T:  seeded histories: random inner programs (checks/pvmgen.py, clean and edgy, valid and malformed blobs),
     random pages / poke / invoke (resumed) / peek / expunge sequences on 1-3 machines.
-X:  harness/refine — the real Omega functions on ONE RefineArgs and one outer memory per case.
+    + the same kind of script assembled into a real outer program and run end-to-end through Psi_M (ecalli dispatch).
+X:  harness/refine — the real Omega functions on ONE RefineArgs and one outer memory per case; Psi_M for the programs.
 V:  HostRefine_Trace — every recorded call judged against HostRefine!Apply (inner run = PVM!Run of C01)."""
 import json, os, sys
 sys.path.insert(0, os.path.dirname(os.path.abspath(__file__)))
@@ -58,12 +59,17 @@ def rand_addr(rng, pages, span=True):
     return pg * ZP + off
 
 
-def history(rng, idx):
+LAY_DIRECT = {"R": [16, 20], "W": [17, 19], "absent": [18], "e2e": False}
+LAY_E2E = {"R": [16], "W": [48], "absent": [17, 49], "e2e": True}       # standard program: read-only segment page 16, read-write page 48
+
+
+def history(rng, idx, lay=LAY_DIRECT):
     """one seeded history; the generator keeps a rough picture of what exists (assuming calls succeed) only to
     aim its arguments; no expected values are computed here"""
-    outer = {"acc": [[16, "R"], [17, "W"], [19, "W"], [20, "R"]], "data": []}
+    RP, WP, AP, e2e = lay["R"], lay["W"], lay["absent"], lay["e2e"]
+    outer = {"acc": [[pg, "R"] for pg in RP] + [[pg, "W"] for pg in WP], "data": []}
     seen = set()
-    for pg in (16, 17, 19, 20):
+    for pg in RP + WP:
         for _ in range(6):
             t = (pg, 3000 + rng.n(1096))
             if t not in seen:
@@ -71,7 +77,8 @@ def history(rng, idx):
     ops = []
     live = {}                       # machine id -> {page: "R"/"W"} as the generator believes
     blob_off = [0]
-    bufs = [P17 + 128, P19 + 256, P17 + 4096 - 112, P19 + 4096 - 112]
+    bufs = [WP[0] * ZP + 128, WP[-1] * ZP + 256, WP[0] * ZP + 4096 - 112, WP[-1] * ZP + 4096 - 112]
+    rare = 40 if e2e else 12                   # end-to-end programs stop at the first outer panic: aim for few of them
 
     def some_id():
         k = rng.n(20)
@@ -94,7 +101,7 @@ def history(rng, idx):
             blob = blob + [rng.n(256)]
         elif kind == 2 and len(blob) > 3:
             blob[rng.n(3)] ^= 1 << rng.n(8)
-        at = P16 + blob_off[0]
+        at = RP[0] * ZP + blob_off[0]
         if blob_off[0] + len(blob) > 2900:
             return
         blob_off[0] += len(blob) + rng.n(3)
@@ -114,7 +121,7 @@ def history(rng, idx):
             ops.append(op("pages", n, pg, 1, 2))
             for _ in range(1 + rng.n(2)):
                 z = rng.pick([1, 2, 4, 8, 8, 16])
-                ops.append(op("poke", n, rand_addr(rng, [16, 17, 19, 20]) % ZP % 4000 + 16 * ZP + 3000 * 0, pg * ZP + rng.pick([0, 1, 2, 3, 7, 8, 100, 4088, 4090, 4092, 4093, 4094, 4095]) % (ZP - z + 1), z))
+                ops.append(op("poke", n, RP[0] * ZP + rng.pick([0, 1, 8, 100, 512, 4000]), pg * ZP + rng.pick([0, 1, 2, 3, 7, 8, 100, 4088, 4090, 4092, 4093, 4094, 4095]) % (ZP - z + 1), z))
             if final != 2:
                 ops.append(op("pages", n, pg, 1, final))
             live[n][pg] = "R" if final == 3 else "W"
@@ -142,13 +149,13 @@ def history(rng, idx):
         elif r < 30:
             n = some_id()
             z = rng.pick([0, 1, 2, 4, 8, 8, 16, 33])
-            src = rand_addr(rng, [16, 17, 19, 20, 20, 17, 19, 18])
+            src = rand_addr(rng, (RP + WP) * (8 if e2e else 1) + [RP[-1], WP[0], WP[-1], AP[0]])
             pgs = [pg for pg, a in live.get(n, {}).items() if a == "W"] * 3 + [16, 17, 18, 19, 20, 21]
             ops.append(op("poke", n, src, rand_addr(rng, pgs), z))
         elif r < 50:
             n = some_id()
             z = rng.pick([0, 1, 2, 4, 8, 8, 16, 33])
-            dst = rand_addr(rng, [17, 19, 17, 19, 17, 19, 17, 19, 16, 18])
+            dst = rand_addr(rng, WP * (30 if e2e else 4) + [RP[0], AP[0]])
             pgs = list(live.get(n, {})) * 6 + [16, 17, 18, 19, 20, 21]
             ops.append(op("peek", n, dst, rand_addr(rng, pgs), z))
         elif r < 92:
@@ -160,7 +167,7 @@ def history(rng, idx):
             buf = le(gas)
             for rg in st["regs"]:
                 buf += rg
-            at = rng.pick(bufs) if rng.n(12) else rng.pick([P16 + 8, P18, P17 + 4096 - 111, P20])
+            at = rng.pick(bufs) if rng.n(rare) else rng.pick([RP[0] * ZP + 8, AP[0] * ZP, WP[0] * ZP + 4096 - 111, RP[-1] * ZP])
             o = op("invoke", n, at, set=[[at, buf]])
             ops.append(o)
             for _ in range(rng.n(3)):          # resume with what the previous run left in the buffer (fresh gas sometimes)
@@ -172,7 +179,33 @@ def history(rng, idx):
             n = some_id()
             ops.append(op("expunge", n))
             live.pop(n, None)
+    if e2e:
+        return e2e_case(idx, outer, ops)
     return {"id": "t%d" % idx, "tag": "hist", "outer": outer, "gas": rng.pick([10000] * 8 + [155, 55]), "ops": ops}
+
+
+LOG_AT = 48 * ZP + 2048
+
+
+def e2e_case(idx, outer, ops):
+    """the same script as a real outer program: initial bytes and program blobs go into the segments of a standard
+    program, the guest's later stores (invoke buffers) stay with the op and become store instructions"""
+    ops = ops[:28]
+    ro, rw = [0] * 3000, [0] * 4096
+    for pg, off, b in outer["data"]:
+        if pg == 16 and off < len(ro):
+            ro[off] = b
+        elif pg == 48 and not (2048 <= off < 2048 + 16 * 30):
+            rw[off] = b
+    for o in ops:
+        keep = []
+        for at, bs in o.get("set", []):
+            if at // ZP == 16:
+                ro[at % ZP:at % ZP + len(bs)] = bs          # program blobs: part of the read-only segment
+            elif at // ZP == 48 and len(bs) % 8 == 0 and at % ZP + len(bs) <= 4096:
+                keep.append([at, bs])
+        o["set"] = keep
+    return {"id": "e%d" % idx, "tag": "e2e", "e2e": True, "ro": ro[:3000], "rw": rw, "log": LOG_AT, "ops": ops}
 
 
 def gen_tlc_cases(ctx):
@@ -224,7 +257,7 @@ def replay_cases(path):
 
 def run(ctx):
     ctx.assumptions += [
-        "Gray Paper 0.7.x Appendix B.8 as transcribed in spec/host/HostRefine.tla is the oracle (permissive clauses P-pages34, P-panicreg, P-fault, P-jumpreg, P-either, P-biggas in its header); the inner machine is spec/pvm/PVM.tla (the oracle of C01)",
+        "Gray Paper 0.7.x Appendix B.8 as transcribed in spec/host/HostRefine.tla is the oracle (permissive clauses P-pages34, P-oogreg, P-fault, P-jumpreg, P-either, P-biggas in its header); the inner machine is spec/pvm/PVM.tla (the oracle of C01)",
         "the Omega functions are called directly on one RefineArgs and one outer memory per case (as Host.HostCall does after an ecalli), with an outer program whose bitmask differs from every inner program's",
         "granted pages requests cover at most 8 pages (the node allocates every granted page eagerly); inner programs avoid sbrk; invoke gas above 2^31-1 only with loop-free inner programs"]
     defs = []
@@ -255,6 +288,9 @@ def build_cases(ctx):
     rng = vf.Rng(ctx.seed * 31 + 5)
     for i in range(25 if ctx.quick else 1200):
         cases.append(history(rng, i))
+    rng = vf.Rng(ctx.seed * 77 + 3)
+    for i in range(10 if ctx.quick else 400):       # the same kind of script run by a real outer program through Psi_M
+        cases.append(history(rng, i, LAY_E2E))
     return defs, cases
 
 
@@ -267,7 +303,7 @@ def selftest(ctx, lines):
     bad = None
     for ln in lines:
         r = json.loads(ln)
-        if r["call"] == "expunge" and r["post"]["exit"] == "continue" and r["pre"]["m"]:
+        if r.get("k") != "e2e" and r["call"] == "expunge" and r["post"]["exit"] == "continue" and r["pre"]["m"]:
             r["post"]["regs"][7][0] ^= 1          # the value expunge returned in omega7
             bad = json.dumps(r)
             break
@@ -299,11 +335,17 @@ def execute_and_judge(ctx, defs, cases):
     seen, lines = set(), []
     percall = {}
     for ln in raw:
+        r = json.loads(ln)
+        if r.get("k") == "e2e":
+            k2 = "e2e:" + r["res"]["kind"]
+            percall[k2] = percall.get(k2, 0) + 1
+            percall["e2e-calls"] = percall.get("e2e-calls", 0) + len(r["res"]["out"]) // 16
+            lines.append(ln)
+            continue
         k = norm_key(ln)
         if k in seen:
             continue
         seen.add(k)
-        r = json.loads(ln)
         percall[r["call"]] = percall.get(r["call"], 0) + 1
         k2 = r["call"] + ":" + result_class(r)
         percall[k2] = percall.get(k2, 0) + 1
@@ -314,8 +356,10 @@ def execute_and_judge(ctx, defs, cases):
     ctx.cov["actions"].update(percall)
     ctx.cov["rule"] = ("cases = TLC-generated scripts (behaviours: setup prefix + every <=2-call suffix of the MC alphabet; per-call argument "
                        "partitions in a prepared state; invoke program x counter x gas grids; quick: seeded samples) + seeded histories with random "
-                       "inner programs; evaluations = recorded host calls; distinct_nontrivial = distinct (call, full state before, full state after) records, each judged by TLC")
-    ctx.cov["samples"] = [{k: v for k, v in json.loads(x).items() if k != "case"} for x in lines[:1] + lines[-1:]]
+                       "inner programs + seeded scripts run end-to-end by an assembled outer program through Psi_M; evaluations = recorded host calls (+ one record per "
+                       "end-to-end program); distinct_nontrivial = distinct (call, full state before, full state after) records + end-to-end programs, each judged by TLC")
+    plain = [x for x in lines[:50] + lines[-400:] if json.loads(x).get("k") != "e2e"]
+    ctx.cov["samples"] = [json.loads(x) for x in plain[:1] + plain[-1:]]
     for need in ("machine", "peek", "poke", "pages", "invoke", "expunge"):
         if not ctx.replay and percall.get(need, 0) == 0:
             raise vf.Infra("no %s call was recorded (vacuous run)" % need)
@@ -332,7 +376,7 @@ def execute_and_judge(ctx, defs, cases):
             c = byid.get(r.get("id"))
             if c and "case" not in r:
                 c = dict(c)
-                if isinstance(c["outer"], str):
+                if isinstance(c.get("outer"), str):
                     c["outer"] = dmap[c["outer"]]
                 r["case"] = c
             out.append(json.dumps(r))
